@@ -1,3 +1,115 @@
-//! Solver harnesses mounted into rs-matter/src/transport/network/btp/gatt.rs
+//! C17 - Bluetooth advertisement payloads. Mounted into
+//! rs-matter/src/transport/network/btp/gatt.rs.
 #![allow(unused_imports, dead_code)]
 use super::*;
+use crate::verif_support::*;
+use crate::{vassert, vcover, vok};
+
+/// Reference walker over AD structures: offset and length of the payload that follows the
+/// 0xFFF6 UUID of the first well-formed "service data - 16 bit UUID" structure.
+fn ref_matter_service_data(b: &[u8]) -> Option<(usize, usize)> {
+    let mut i = 0;
+    while i < b.len() {
+        let len = b[i] as usize;
+        if len == 0 || i + 1 + len > b.len() {
+            return None;
+        }
+        if b[i + 1] == 0x16 && len >= 3 && b[i + 2] == 0xf6 && b[i + 3] == 0xff {
+            return Some((i + 4, len - 3));
+        }
+        i += 1 + len;
+    }
+    None
+}
+
+/// The commissionable advertisement: every (vendor, product, discriminator, additional-data
+/// flag) is emitted as the 15-byte flags + service-data blob of the spec and parsed back to the
+/// same value, also when another AD structure of 2..=4 bytes precedes it.
+#[cfg_attr(kani, kani::proof)]
+#[cfg_attr(kani, kani::unwind(22))]
+#[cfg_attr(not(kani), test)]
+fn c17_q_ble_adv_emit_parse_roundtrip() {
+    let disc = any_u16();
+    assume(disc < 0x1000);
+    let a = AdvData { vid: any_u16(), pid: any_u16(), discriminator: disc, additional_data: any_bool() };
+    let mut b = [0u8; 20];
+    // optional foreign structure in front
+    let pre = any_usize();
+    assume(pre == 0 || (pre >= 2 && pre <= 4));
+    let mut n = 0;
+    if pre > 0 {
+        b[0] = (pre - 1) as u8;
+        b[1] = any_u8();
+        assume(b[1] != 0x16 || pre < 4);
+        let mut k = 2;
+        while k < pre {
+            b[k] = any_u8();
+            k += 1;
+        }
+        n = pre;
+    }
+    let start = n;
+    for x in a.iter() {
+        vassert!(n < 20, "ROLE:ble-adv-length");
+        b[n] = x;
+        n += 1;
+    }
+    vassert!(n - start == 15, "ROLE:ble-adv-length");
+    vassert!(b[start] == 2 && b[start + 1] == 1 && b[start + 2] == 6, "ROLE:ble-adv-flags-structure");
+    vassert!(b[start + 3] == 11 && b[start + 4] == 0x16 && b[start + 5] == 0xf6 && b[start + 6] == 0xff, "ROLE:ble-adv-service-data-header");
+    vassert!(AdvData::parse_adv(&b[..n]) == Some(a), "ROLE:ble-adv-roundtrip");
+    vassert!(RecoveryAdvData::parse_adv(&b[..n]).is_none(), "ROLE:commissionable-adv-is-not-a-recovery-adv");
+    vcover!(pre == 4 && disc == 0xfff);
+}
+
+/// The network-recovery advertisement round trip.
+#[cfg_attr(kani, kani::proof)]
+#[cfg_attr(kani, kani::unwind(22))]
+#[cfg_attr(not(kani), test)]
+fn c17_q_ble_recovery_adv_emit_parse_roundtrip() {
+    let a = RecoveryAdvData { recovery_id: any_bytes::<8>(), additional_data: any_bool() };
+    let mut b = [0u8; 20];
+    let mut n = 0;
+    for x in a.iter() {
+        vassert!(n < 20, "ROLE:ble-recovery-adv-length");
+        b[n] = x;
+        n += 1;
+    }
+    vassert!(n == 18, "ROLE:ble-recovery-adv-length");
+    vassert!(RecoveryAdvData::parse_adv(&b[..n]) == Some(a), "ROLE:ble-recovery-adv-roundtrip");
+    vassert!(AdvData::parse_adv(&b[..n]).is_none(), "ROLE:recovery-adv-is-not-a-commissionable-adv");
+}
+
+/// Both advertisement decoders on every byte string <= 16: a value or None, never a panic, and
+/// the decision equals the reference walk (first well-formed 0x16/0xFFF6 structure; opcode 0,
+/// >= 8 payload bytes for the commissionable form; opcode 1, >= 11 for the recovery form).
+#[cfg_attr(kani, kani::proof)]
+#[cfg_attr(kani, kani::unwind(18))]
+#[cfg_attr(not(kani), test)]
+fn c17_q_ble_adv_parse_equals_reference_16() {
+    let b: [u8; 16] = any_bytes::<16>();
+    let n = any_usize();
+    assume(n <= 16);
+    let s = &b[..n];
+    let r = AdvData::parse_adv(s);
+    let rr = RecoveryAdvData::parse_adv(s);
+    match ref_matter_service_data(s) {
+        Some((off, len)) => {
+            vcover!(len == 8 && b[off] == 0);
+            vcover!(len == 11);
+            let want = len >= 8 && b[off] == 0;
+            vassert!(r.is_some() == want, "ROLE:ble-adv-accepted-iff-commissionable-service-data");
+            if let Some(a) = r {
+                vassert!(a.discriminator == (b[off + 1] as u16 | ((b[off + 2] as u16) << 8)) & 0x0fff, "ROLE:ble-adv-discriminator-decoded");
+                vassert!(a.vid == b[off + 3] as u16 | ((b[off + 4] as u16) << 8), "ROLE:ble-adv-vid-decoded");
+                vassert!(a.pid == b[off + 5] as u16 | ((b[off + 6] as u16) << 8), "ROLE:ble-adv-pid-decoded");
+                vassert!(a.additional_data == (b[off + 7] & 1 != 0), "ROLE:ble-adv-additional-data-flag-decoded");
+            }
+            vassert!(rr.is_some() == (len >= 11 && b[off] == 1), "ROLE:ble-recovery-adv-accepted-iff-recovery-service-data");
+        }
+        None => {
+            vcover!(n == 16);
+            vassert!(r.is_none() && rr.is_none(), "ROLE:ble-adv-without-matter-service-data-refused");
+        }
+    }
+}
